@@ -19,7 +19,7 @@
 //	(the operations commute: Props/C08.v c08_reordering_commutable_ops) and no lint of its own is run.
 //
 // Embedding ops: "P<k>" k blank lines after the package line, "T<k>" k blank lines at the top, "C" CRLF line ends,
-// "A" append a blank line and an unrelated rule (numbered per occurrence).
+// "A" append a blank line and an unrelated rule (numbered per occurrence); "F<k>" the same with an unrelated function of k arguments.
 //
 // Boundary shifts (Model/Layout.v boundary_shifts): on top of the embeddings of the tier every case is linted under
 // "T<k>" for every k = t - r, r a row (any row, or any non-blank row) of one of its files, t a target row (9, 99,
@@ -147,6 +147,22 @@ func appendRule(t string, n int) string {
 	return t + eol + eol + unrelatedRule(n) + eol
 }
 
+// an unrelated function of k arguments that uses every argument: zz_verif_unrelated_<n>(a1, .., ak) := [a1, .., ak]
+// (rules that look at all functions of a module, their arities or their argument names see a different population)
+func unrelatedFunc(n, k int) string {
+	args := make([]string, k)
+	for i := range args {
+		args[i] = "zz_" + string(rune('a'+i)) // letters only: naming conventions of the fixtures forbid digits
+	}
+	a := strings.Join(args, ", ")
+	return "zz_verif_unrelated_" + strconv.Itoa(n) + "(" + a + ") := [" + a + "]"
+}
+
+func appendFunc(t string, n, k int) string {
+	eol := eolOf(t)
+	return t + eol + eol + unrelatedFunc(n, k) + eol
+}
+
 // ops: "P<k>" blank lines after package, "T<k>" blank lines at top, "C" CRLF, "A" append unrelated rule
 func applyOps(t string, ops []string) string {
 	n := 0
@@ -163,13 +179,17 @@ func applyOps(t string, ops []string) string {
 		case 'A':
 			n++
 			t = appendRule(t, n)
+		case 'F':
+			n++
+			k, _ := strconv.Atoi(op[1:])
+			t = appendFunc(t, n, k)
 		}
 	}
 	return t
 }
 
 func embeddings(tier string) [][]string {
-	single := [][]string{{"P3"}, {"C"}, {"A"}}
+	single := [][]string{{"P3"}, {"C"}, {"A"}, {"F1"}, {"F3"}}
 	out := [][]string{{}}
 	if tier == "quick" {
 		// P9: the package clause stays on its single-digit row, every row after it goes to row 11 or beyond (the
@@ -192,6 +212,14 @@ func embeddings(tier string) [][]string {
 			}
 		}
 	}
+	// the appended unrelated rule as a function of one or three arguments, alone and combined with every other operation
+	for _, f := range []string{"F1", "F3"} {
+		out = append(out, []string{f})
+		for _, a := range alpha {
+			out = append(out, []string{f, a}, []string{a, f})
+		}
+	}
+	out = append(out, []string{"F1", "F3"}, []string{"F3", "F1"})
 	return out
 }
 
@@ -232,7 +260,7 @@ func boundaryShifts(c *Case) []int {
 
 // the single transformations of the quick tier
 func isQuickSingle(ops []string) bool {
-	return len(ops) == 1 && (ops[0] == "P3" || ops[0] == "C" || ops[0] == "A")
+	return len(ops) == 1 && (ops[0] == "P3" || ops[0] == "C" || ops[0] == "A" || ops[0] == "F1" || ops[0] == "F3")
 }
 
 func allowed(embed string, ops []string) bool {
@@ -272,7 +300,7 @@ func allowed(embed string, ops []string) bool {
 					return false
 				}
 			case "noappend":
-				if op == "A" {
+				if op == "A" || op[0] == 'F' {
 					return false
 				}
 			}
